@@ -166,6 +166,15 @@ pub struct Extra {
     pub body: Body,
 }
 
+/// A long run of valid, ignorable configuration frames (plugin messages) sent in one burst.
+#[derive(Clone, Debug, Serialize, Deserialize, PartialEq)]
+pub struct Flood {
+    /// virtual time after Login Acknowledged
+    pub at_ns: u64,
+    pub count: u32,
+    pub size: u32,
+}
+
 #[derive(Clone, Debug, Serialize, Deserialize, PartialEq)]
 pub struct ClientSpec {
     pub intent: i32,
@@ -195,6 +204,8 @@ pub struct ClientSpec {
     pub ka_default: KaPolicy,
     #[serde(default)]
     pub extras: Vec<Extra>,
+    #[serde(default)]
+    pub flood: Option<Flood>,
     #[serde(default)]
     pub script: Option<Vec<Step>>,
     pub script_gap_ns: u64,
@@ -252,6 +263,7 @@ impl ClientSpec {
             ka: vec![],
             ka_default: KaPolicy::Prompt,
             extras: vec![],
+            flood: None,
             script: None,
             script_gap_ns: 1_000_000,
             mutations: vec![],
@@ -328,6 +340,7 @@ enum Action {
     Extra(usize),
     Close { reset: bool },
     EncResp,
+    Flood,
 }
 
 struct Engine<'a> {
@@ -865,6 +878,9 @@ impl<'a> Engine<'a> {
                             self.at(x.at_ns, Action::Extra(i));
                         }
                     }
+                    if let Some(f) = &self.spec.flood {
+                        self.at(f.at_ns, Action::Flood);
+                    }
                 }
             }
             Action::Close { reset } => self.do_close(reset),
@@ -878,6 +894,15 @@ impl<'a> Engine<'a> {
                     if self.spec.send_info {
                         let body = codec::client_info_body(&self.spec.locale, 10, 0, true, 0x7f, 1, false, true, 0);
                         self.at(self.spec.ack_delay_ns + self.spec.info_delay_ns, Action::Send { kind: "ClientInfo", id: 0x00, body });
+                    }
+                }
+            }
+            Action::Flood => {
+                if let Some(f) = self.spec.flood.clone() {
+                    let mut body = b"\x0fminecraft:brand".to_vec();
+                    body.resize(f.size.max(16) as usize, 0x2e);
+                    for _ in 0..f.count {
+                        self.send_packet("Flood", 0x02, &body);
                     }
                 }
             }
